@@ -6,7 +6,7 @@ with the model's prediction (Ref) and with the same call on freshly created read
 histories over all reader APIs on valid and damaged images (differential)."""
 import json, os, random, shutil, struct, subprocess, sys, zlib
 from concurrent.futures import ThreadPoolExecutor
-import vlib, build, sqfsimg
+import vlib, build, bpbind, sqfsimg
 from vlib import VERIF, Evidence, Reporter, run_tlc, write_cfg, scratch, SEED, sh
 
 PID = "C10"
@@ -106,6 +106,93 @@ def run_hist(binp, image, ops, work, tag):
     rc, o, e = sh([binp, image, p], timeout=120)
     recs = [json.loads(l) for l in o.decode(errors="replace").split("\n") if l.startswith("{")]
     return rc, recs, e.decode(errors="replace"), p
+
+
+XA_VAL = {"s": b"s", "L": b"L" * 12, "M": b"M" * 12}
+
+
+def xattr_reader_stage(work, rep, ev, tier, rng, cfg):
+    """spec/XattrReader.tla: the xattr reader as a cursor over the key/value area with out-of-line values; walks that are
+    abandoned after a key or a value, then a complete read.  R: every program TLC emits, on every key/value area the real
+    writer produces for the add sequences emitted from spec/XattrWriter.tla (ASan): the last answer has to be the one a
+    fresh reader gives."""
+    MW = 2 if tier == "quick" else 3
+    write_cfg(cfg, spec="Spec", constants={"Emit": False, "MaxWalks": MW, "ReturnMode": '"eager"'}, invariants=["HistoryFree", "NothingPendingAtSeek"], deadlock=False)
+    r = run_tlc("XattrReader", cfg, workers=8, timeout=900)
+    ev.tlc(r, "XattrReader walks<=%d" % MW)
+    if not r["ok"]:
+        print("MODEL-FAILURE: XattrReader violates %s" % r["violated"])
+        return None
+    write_cfg(cfg, spec="Spec", constants={"Emit": False, "MaxWalks": 2, "ReturnMode": '"lazy"'}, invariants=["HistoryFree"], deadlock=False)
+    r = run_tlc("XattrReader", cfg, workers=8, timeout=900)
+    ev.tlc(r, "dev XattrReader lazy return")
+    if r["violated"] != "HistoryFree":
+        print("SELF-CHECK-FAILED: XattrReader deviation 'lazy' without a HistoryFree counterexample")
+        return None
+    write_cfg(cfg, spec="Spec", constants={"Emit": True, "MaxWalks": 2, "ReturnMode": '"eager"'}, invariants=["EmitOK"], deadlock=False)
+    r = run_tlc("XattrReader", cfg, workers=2, timeout=900)
+    progs = bpbind.parse_emitted(r["out"])
+    qlines = sorted({"Q " + " ".join("%d:%d:%d" % (w["s"] - 1, w["n"], 1 if w["k"] else 0) for w in p["prog"]) + " ; %d" % (p["final"] - 1) for p in progs})
+    if len(qlines) < 100:
+        print("SELF-CHECK-FAILED: XattrReader emitted %d programs" % len(qlines))
+        return None
+    if len(qlines) > 250:
+        rng.shuffle(qlines)
+        qlines = sorted(qlines[:250])
+    # key/value areas: the add sequences of XattrWriter with 3 inodes in which a long value is shared (out-of-line references exist)
+    write_cfg(cfg, spec="Spec", constants={"Emit": True, "MaxInodes": 3, "MaxAdds": 2, "Compare": '"pairs"', "ReplaceSameKey": True, "OolNeedsLong": True,
+                                           "OolByValue": True, "NLong": 1}, invariants=["EmitOK"], deadlock=False)
+    r = run_tlc("XattrWriter", cfg, workers=4, timeout=1800, heap="12g")
+    cases = [c for c in bpbind.parse_emitted(r["out"]) if len(c["input"]) == 3 and any(not e["inl"] for st in c["layout"] for e in st)]
+    if len(cases) < 500:
+        print("SELF-CHECK-FAILED: only %d key/value areas with out-of-line values" % len(cases))
+        return None
+    rng.shuffle(cases)
+    cases = cases[: (160 if tier == "quick" else 2500)]
+    binp = work + "/replay_xattrwr"
+    if not build.compile_harness(VERIF + "/harness/replay_xattrwr.c", binp, variant="asan"):
+        raise RuntimeError("harness build failed")
+
+    def chunk(ci):
+        part = cases[ci::16]
+        txt = []
+        for c in part:
+            txt.append("C")
+            for ino in c["input"]:
+                txt.append("I")
+                for k, v in ino:
+                    txt.append("A %s %s" % (k, XA_VAL[v].hex()))
+                txt.append("E")
+            txt += qlines
+            txt.append("F")
+        p = subprocess.run(["timeout", "900", binp, "%s/xr%d.bin" % (work, ci)], input="\n".join(txt) + "\n", capture_output=True, text=True,
+                           env=dict(os.environ, ASAN_OPTIONS="detect_leaks=1"))
+        return part, p
+    n = 0
+    done = set()
+    with ThreadPoolExecutor(16) as ex:
+        for part, p in ex.map(chunk, range(16)):
+            lines = [l for l in p.stdout.split("\n") if l.startswith("{")]
+            if "ERROR: AddressSanitizer" in p.stderr or p.returncode != 0 or len(lines) != len(part):
+                if "mem" not in done:
+                    done.add("mem")
+                    rep.violation("xattr-reader-memory", "xattr reader under abandoned walks: rc %d %s" % (p.returncode, p.stderr[-300:]))
+                continue
+            for c, l in zip(part, lines):
+                rr = json.loads(l)
+                for qi, h in enumerate(rr.get("hist", [])):
+                    if h >= 0:
+                        n += 1
+                    if h == 0 and "hist" not in done:
+                        done.add("hist")
+                        rep.violation("xattr-reader-history", "xattr sets %s: after the walks '%s' (inode:pairs:extra key ... ; inode read completely) the reader returns a "
+                                      "different set than a fresh reader" % (c["input"], qlines[qi][2:]), data={"input": c["input"], "history": qlines[qi]})
+                if not rr.get("history_free", True) and "seq" not in done:
+                    done.add("seq")
+                    rep.violation("xattr-reader-history", "xattr sets %s: reading the sets one after the other on one reader differs from fresh readers" % c["input"], data={"input": c["input"]})
+    ev.set("xattr_reader_histories_replayed", n)
+    ev.set("xattr_reader_programs", len(qlines))
+    return n
 
 
 def run(tier):
@@ -391,6 +478,11 @@ def run(tier):
                 os.unlink(p)
             except OSError:
                 pass
+    xn = xattr_reader_stage(work, rep, ev, tier, rng, work + "/xr.cfg")
+    if xn is None:
+        ev.write()
+        return 2
+    replays += xn
     ev.set("random_histories", nrand)
     ev.set("answers_that_differ_from_the_model_but_not_between_histories(spec drift, no alarm)", drift_spec[:5])
     if drift_spec:
